@@ -530,7 +530,7 @@ def _run(case):
     if not delivered:
         return FAIL(f"wrong-terminal|{label}", f"expected on_error({tag}), got {term[:3]}; {detail}", classes=cls)
     # (c) pipeline stops
-    embedded = case.get("pre") is not None or bool(case.get("suf"))
+    embedded = case.get("pre") is not None or bool(case.get("suf")) or case.get("args") is not None
     judge_c = (not embedded) or len(lab.probes) == 1
     if judge_c:
         inj_action = next(a for e, a in zip(lab.cb_log, lab.cb_action) if e[1] == inj_seq)
@@ -670,6 +670,5 @@ def checks(tier):
         Check("enum", _run, cases=_enum, shards={"quick": 4, "thorough": 16}, exhaustive=True),
         Check("reach", _reach, cases=_reach_cases, shards={"quick": 4, "thorough": 16}, exhaustive=True),
     ]
-    if tier == "thorough":
-        cs.append(Check("embedded", _run, strategy=_embedded(), examples={"quick": 0, "thorough": 16 * 20000}, shards={"quick": 1, "thorough": 16}))
+    cs.append(Check("embedded", _run, strategy=_embedded(), examples={"quick": 1600, "thorough": 16 * 20000}, shards={"quick": 4, "thorough": 16}))
     return cs
